@@ -109,6 +109,15 @@ def full_width(curves, rng, quick, grp_scale=1.0, mul_scale=1.0):
             out += [(rng.choice(corners), 0), (0, rng.choice(corners)), (cv.n, rng.choice(corners))][:2 if quick else 3]
             return out
         m += gen_ep.sim_cases(cv, rng, kp_for, pms)
+        if cv.endom:
+            # rounding boundaries of the GLV decomposition, for every routine (each decomposes or may decompose k)
+            gl = gen_ep.glv_corners(cv, rng, per=1 if quick else 4)
+            if gl:
+                m += gen_ep.mul_cases(cv, rng, lambda op, gl=gl: gl if not quick else rng.sample(gl, min(len(gl), 8)), pms)
+                m += gen_ep.sim_cases(cv, rng, lambda op, gl=gl: [(rng.choice(gl), rng.choice(gl)) for _ in range(3)], pms)
+        # many-term sums: the bucket method changes its window with the number of terms (w = max(2, bits(N) - 2))
+        small = [k for k in corners if abs(k) < cv.n]
+        m += gen_ep.lot_cases(cv, rng, small, pms, [33] if quick else [32, 33, 47, 70, 96], per_count=1)
         m += gen_ep.lot_cases(cv, rng, corners, pms, range(0, 6), per_count=1 if quick else 4)
         if cv.endom and not quick:
             m += gen_ep.lot_cases(cv, rng, corners, pms, [11, 14], per_count=1)      # Pippenger-style path (n > 10)
